@@ -217,27 +217,29 @@ def work_transparent(c):
             log['correct'] += 1
             return o_correct(*a, **k)
 
-        def set_pva(self, pva):
+        def set_pva(self, *a_, **k_):
             log['set_pva'] += 1
-            return o_set(self, pva)
+            return o_set(self, *a_, **k_)
 
-        def upd(self, x):
+        def upd(self, *a_, **k_):
             log['update'] += 1
-            return o_upd(self, x)
+            return o_upd(self, *a_, **k_)
 
-        def integ(self, increments):
+        def integ(self, *a_, **k_):
+            increments = B._pos(o_int, (self,) + a_, k_)[1]
             log['batches'].append(np.asarray(increments.index, dtype=float).tobytes())
             log['ends'].append((float(self.get_time()), float(increments.index[-1]) if len(increments) else float('nan')))
-            return o_int(self, increments)
+            return o_int(self, *a_, **k_)
 
         o_epm = filters._compute_error_propagation_matrices
 
-        def epm(pva, gyro, accel, time_delta, *a, **k):
-            log['deltas'].append(float(time_delta))
-            return o_epm(pva, gyro, accel, time_delta, *a, **k)
+        def epm(*a_, **k_):
+            log['deltas'].append(float(B._pos(o_epm, a_, k_)[3]))
+            return o_epm(*a_, **k_)
 
-        def ci(increments, gyro_model, accel_model):
-            res = o_ci(increments, gyro_model, accel_model)
+        def ci(*a_, **k_):
+            increments = B._pos(o_ci, a_, k_)[0]
+            res = o_ci(*a_, **k_)
             same = (np.asarray(res, dtype=float).tobytes() == np.asarray(increments, dtype=float).tobytes())
             if not same:
                 log['identity'] = False
